@@ -105,7 +105,14 @@ class G:
             return o + g.msp(True) + g.math(3) + g.msp(True) + c
         if r < 10 and self.depth < 4:
             g = G(self.r, self.depth + 1)
-            args = [g.math(2) for _ in range(self.r.below(4))]
+            hashed = ["#text(red)[1]", "#box(inset: 2pt)[3]", "#strong[4]", "#f(1, 2)", "#f(x)[y][z]", "#(a, b)", "#x.f(1)[c]", "#2", "#[c]"]
+            args = [(self.r.pick(hashed) if self.r.chance(1, 4) else g.math(2)) for _ in range(self.r.below(5))]
+            if self.r.chance(1, 3) and len(args) >= 2:
+                # rows of a 2-D argument list: commas inside a row, semicolons between rows
+                out = args[0]
+                for a in args[1:]:
+                    out += self.r.pick([", ", ",", "; ", ";", " ;", ";\n  "]) + a
+                return self.r.pick(["mat", "f", "cases"]) + "(" + g.msp(True) + out + self.r.pick(["", ";", ","]) + g.msp(True) + ")"
             sep = self.r.pick([", ", ",", " , ", "; ", ",\n  "])
             return self.r.pick(["f", "sqrt", "mat", "vec", "cases"]) + "(" + g.msp(True) + sep.join(args) + g.msp(True) + ")"
         if r < 12:
@@ -119,7 +126,8 @@ class G:
         if r < 16:
             return '"' + self.r.pick(["text", "if ", " a"]) + '"'
         if r < 17:
-            return "#" + self.r.pick(["x", "f(1)", "(1 + 2)", "[c]"])
+            return "#" + self.r.pick(["x", "f(1)", "(1 + 2)", "[c]", "text(red)[1]", "box(inset: 2pt)[3]", "strong[4]", "f(1, 2)",
+                                      "f(x)[y][z]", "{1}", "(2)", "x.y", "(a, b)", "f(a: 1)[b]", "x.f(1)[c]", "1em", "(1)w"])
         if r < 18:
             return "&"
         if r < 19:
